@@ -13,7 +13,7 @@ import (
 
 func init() {
 	register(&PropDef{
-		ID: "C01", Level: "exploration", Quick: 2400, Thorough: 400000, QuickCap: 100,
+		ID: "C01", Level: "exploration", Quick: 12000, Thorough: 400000, QuickCap: 100,
 		Rule:   "each run = one storage engine, a drawn server-clock trajectory, 1-40 MutateRow/MutateRows requests over 8 adversarial row keys x 2 families (+unknown) x 5 qualifiers x boundary/invalid timestamps and every delete kind/range shape; after each request the touched rows are read back, the whole table at a drawn frequency and at the end; distinct = hash of (engine, sequence of mutation shapes); non-trivial = at least 2 requests",
 		Real:   []string{"bttest server handlers (MutateRow, MutateRows, ReadRows, applyMutations, scrubRow, chunkBuilder)", "btree / goleveldb-mem / goleveldb-disk engines", "start-up recovery (NewServerWithOptions) for disk restarts", "protobuf wire round trip of every request and response"},
 		Stub:   []string{"gRPC transport (direct handler calls with a recording stream)", "server clock (simulator-owned)", "process kill = byte copy of the storage directory between requests"},
